@@ -176,6 +176,8 @@ func execOp(line string) string {
 		return execUDFWrite(t[1:])
 	case "live":
 		return execLive(t[1], t[2])
+	case "pbatch":
+		return execPBatch(t[2:])
 	case "http":
 		return execHTTP(t[1], un(t[2]), t[3], un(t[4]))
 	case "livex":
@@ -981,4 +983,39 @@ func execHTTP(method, path, enc, body string) string {
 	io.Copy(io.Discard, resp.Body)
 	resp.Body.Close()
 	return strconv.Itoa(resp.StatusCode)
+}
+
+// ---------------------------------------------------------------------------------------------
+// `pbatch <cls> <s1> <s2> …`: ast.Parse, tick.Format and ast.ParseLambda on every string of the batch.
+// Observation: per string three letters (o = ok, e = error, p = panic) and, last, the goroutines left
+// behind by the whole batch.
+
+func execPBatch(toks []string) string {
+	g0 := settle(-1)
+	var out []string
+	one := func(f func() error) (c byte) {
+		defer func() {
+			if r := recover(); r != nil {
+				c = 'p'
+			}
+		}()
+		if err := f(); err != nil {
+			return 'e'
+		}
+		return 'o'
+	}
+	for _, tk := range toks {
+		s, _ := kit.Unesc(tk)
+		r := []byte{
+			one(func() error { _, err := ast.Parse(s); return err }),
+			one(func() error { _, err := tick.Format(s); return err }),
+			one(func() error { _, err := ast.ParseLambda(s); return err }),
+		}
+		out = append(out, string(r))
+	}
+	leak := settle(g0) - g0
+	if leak < 0 {
+		leak = 0
+	}
+	return strings.Join(out, " ") + " " + strconv.Itoa(leak)
 }
